@@ -164,7 +164,7 @@ def execute_plan(plan: dict, kdf_limit: int = 300, keep_events: bool = False) ->
     dc = refdc.RefDC(world, rks, host=offline.DC, caller_sids=set(plan.get("caller_sids", [])), acceptor_factory=acc_factory,
                      domain=dcc.get("domain", "domain.test"), forest=dcc.get("forest", "domain.test"),
                      skew_ns=dcc.get("skew_ticks", 0) * 100, omit_l2_at_31=dcc.get("omit_l2_at_31", False), rpc_knobs=rpc_knobs,
-                     byz=dcc.get("byz"), gkdi_port=dcc.get("gkdi_port", 49667))
+                     byz=dcc.get("byz"), gkdi_port=dcc.get("gkdi_port", 49667), lib_codecs=bool(dcc.get("lib_codecs")))
     tr.dc = dc
     world.default_delivery = plan.get("delivery")
     cache = dpapi_ng.KeyCache()
